@@ -250,7 +250,9 @@ def explore(ctx, h, drv, label, nhist, nops, stride, n2):
             prob = judge(line, states)
             ctx.hist("result-" + (prob[0] if prob else "prefix-state"))
             if prob:
-                sig = dict(kind="oracle", cls=prob[0], forced=W.field(line, "forced"), at=at.split(".")[0])
+                inclose = "close" if int(W.field(line.split(" | ")[0], "begun")) >= len(ops) else "op"
+                ctx.hist("fail:%s:forced%s:%s" % (prob[0], W.field(line, "forced"), inclose))
+                sig = dict(kind="oracle", cls=prob[0], forced=W.field(line, "forced"), at=at.split(".")[0], during=inclose)
                 ctx.fail(sig, dict(lines=lines, op=opl, impl=line, states=states), prob[1])
         if drv and ck:
             rc, mo, me = C.run_lines([drv, "c04"], ck, timeout=600)
